@@ -1,5 +1,8 @@
 use crate::Selector;
+#[cfg(not(rs_store_verif))]
 use std::sync::Mutex;
+#[cfg(rs_store_verif)]
+use simrt::sync::Mutex;
 
 /// Subscriber is a trait that can be implemented to receive notifications from the store.
 pub trait Subscriber<State, Action>
